@@ -7,7 +7,7 @@ class E2Prop(Prop):
     engine_desc = 'E2 WebSocket::{read,write,flush,close,can_read,can_write,set_config} vs Protocol.run_ops'
     debug_build_too = True
     quick_random = 3000
-    thorough_random = 40000
+    thorough_random = 150000
 
     def corpus(self):
         import os
